@@ -94,6 +94,8 @@ type Options struct {
 	DataHasher hasher.Hasher
 	// GasLimit per message (0 = default 50M).
 	GasLimit uint64
+	// ChainID of every block header ("" = "verif-1").
+	ChainID string
 }
 
 type namedInvariant struct {
@@ -222,7 +224,11 @@ func (c *Chain) Restart() *Chain {
 }
 
 func (c *Chain) header() tmproto.Header {
-	return tmproto.Header{ChainID: "verif-1", Height: c.Height, Time: c.Time}
+	id := c.Opts.ChainID
+	if id == "" {
+		id = "verif-1"
+	}
+	return tmproto.Header{ChainID: id, Height: c.Height, Time: c.Time}
 }
 
 func (c *Chain) newCtx(ms storetypes.MultiStore) sdk.Context {
